@@ -1,6 +1,6 @@
-(* Num/CmpOrder.v — golua's comparison of two numbers (IM) coincides with the
-   manual's comparison by mathematical value (S) outside the defect class, and
-   is therefore a consistent order: trichotomy for non-NaN operands and
+(* Num/CmpOrder.v — golua's comparison of two numbers (IM, after the repair of
+   comp.go) coincides with the manual's comparison by mathematical value (S)
+   and is therefore a consistent order: trichotomy for non-NaN operands and
    a <= b  =  (a < b or a == b). *)
 From Coq Require Import ZArith Reals Lia Lra Bool List Floats.SpecFloat.
 From Flocq Require Import Core.Core IEEE754.BinarySingleNaN.
@@ -9,14 +9,6 @@ Open Scope Z_scope.
 
 Definition num_wf (x : num) : Prop := match x with NInt a => in64 a | NFlt _ => True end.
 Definition num_is_nan (x : num) : bool := match x with NFlt f => is_nan f | _ => false end.
-
-(* defect class on a pair of numbers: an integer >= 2^63-512 against the float 2^63 *)
-Definition num_defect (x y : num) : bool :=
-  match x, y with
-  | NInt a, NFlt g => cmp_defect a g
-  | NFlt f, NInt b => cmp_defect b f
-  | _, _ => false
-  end.
 
 Lemma Rcompare_Lt_iff a b : Rcompare a b = Lt <-> (a < b)%R.
 Proof. destruct (Rcompare_spec a b); split; intros; try discriminate; try lra; auto. Qed.
@@ -33,8 +25,7 @@ Lemma mixed_is_spec a g : in64 a ->
   leIntAndFloat a g = s_le (NInt a) (NFlt g) /\
   ltFloatAndInt g a = s_lt (NFlt g) (NInt a) /\
   equalIntAndFloat a g = s_eq (NInt a) (NFlt g) /\
-  (cmp_defect a g = false ->
-     ltIntAndFloat a g = s_lt (NInt a) (NFlt g) /\ leFloatAndInt g a = s_le (NFlt g) (NInt a)).
+  ltIntAndFloat a g = s_lt (NInt a) (NFlt g) /\ leFloatAndInt g a = s_le (NFlt g) (NInt a).
 Proof.
   intros Ha. unfold s_le, s_lt, s_eq. cbn [s_cmp].
   destruct (is_finite g) eqn:Fg.
@@ -46,9 +37,9 @@ Proof.
     + apply bool_eq_iff. rewrite L1. destruct (Rcompare_spec (IZR a) (B2R g)); split; intros; try discriminate; try lra; auto.
     + apply bool_eq_iff. rewrite L2. destruct (Rcompare_spec (IZR a) (B2R g)); cbn; split; intros; try discriminate; try lra; auto.
     + apply bool_eq_iff. rewrite L3. destruct (Rcompare_spec (IZR a) (B2R g)); split; intros; try discriminate; try lra; auto.
-    + apply bool_eq_iff. rewrite (ltIntAndFloat_exact_partial a g Ha Fg H).
+    + apply bool_eq_iff. rewrite (ltIntAndFloat_exact a g Ha Fg).
       destruct (Rcompare_spec (IZR a) (B2R g)); split; intros; try discriminate; try lra; auto.
-    + apply bool_eq_iff. rewrite (leFloatAndInt_exact_partial a g Ha Fg H).
+    + apply bool_eq_iff. rewrite (leFloatAndInt_exact a g Ha Fg).
       destruct (Rcompare_spec (IZR a) (B2R g)); cbn; split; intros; try discriminate; try lra; auto.
   - pose proof (cmp_nonfinite a Ha) as C. unfold finf, fnan in C.
     destruct C as (C1 & C2 & C3 & C4 & C5 & C6 & C7 & C8 & C9 & C10 & C11 & C12 & C13 & C14 & C15).
@@ -64,17 +55,17 @@ Proof.
   destruct (SFcompare (B2SF f) (B2SF g)) as [[ | | ]|]; repeat split; reflexivity.
 Qed.
 
-Theorem cmp_im_is_spec_partial x y : num_wf x -> num_wf y -> num_defect x y = false ->
+Theorem cmp_im_is_spec x y : num_wf x -> num_wf y ->
   num_lt x y = s_lt x y /\ num_le x y = s_le x y /\ num_eq x y = s_eq x y.
 Proof.
-  intros Wx Wy D. destruct x as [a|f], y as [b|g]; cbn [num_lt num_le num_eq].
+  intros Wx Wy. destruct x as [a|f], y as [b|g]; cbn [num_lt num_le num_eq].
   - unfold s_lt, s_le, s_eq. cbn [s_cmp]. split; [|split].
     + rewrite Z.ltb_compare. destruct (a ?= b); reflexivity.
     + rewrite Z.leb_compare. destruct (a ?= b); reflexivity.
     + rewrite Z.eqb_compare. destruct (a ?= b); reflexivity.
-  - destruct (mixed_is_spec a g Wx) as (L1 & L2 & L3 & L4). destruct (L4 D) as [L5 L6].
+  - destruct (mixed_is_spec a g Wx) as (L1 & L2 & L3 & L5 & L6).
     repeat split; assumption.
-  - destruct (mixed_is_spec b f Wy) as (L1 & L2 & L3 & L4). destruct (L4 D) as [L5 L6].
+  - destruct (mixed_is_spec b f Wy) as (L1 & L2 & L3 & L5 & L6).
     repeat split; try assumption.
     rewrite L3. unfold s_eq. cbn [s_cmp]. destruct (s_cmp_int_float b f) as [[ | | ]|]; reflexivity.
   - apply float_is_spec.
@@ -122,38 +113,28 @@ Qed.
 Theorem s_le_iff_lt_or_eq x y : s_le x y = s_lt x y || s_eq x y.
 Proof. unfold s_le, s_lt, s_eq. destruct (s_cmp x y) as [[ | | ]|]; reflexivity. Qed.
 
-(* --- hence golua's comparison is, outside the defect class -------------------- *)
-Theorem compare_total_partial x y : num_wf x -> num_wf y ->
+(* --- hence golua's comparison is ------------------------------------------ *)
+Theorem compare_total x y : num_wf x -> num_wf y ->
   num_is_nan x = false -> num_is_nan y = false ->
-  num_defect x y = false ->
   exactly_one (num_lt x y) (num_eq x y) (num_lt y x).
 Proof.
-  intros Wx Wy Nx Ny D.
-  assert (D' : num_defect y x = false) by (destruct x, y; exact D).
-  destruct (cmp_im_is_spec_partial x y Wx Wy D) as (-> & _ & ->).
-  destruct (cmp_im_is_spec_partial y x Wy Wx D') as (-> & _ & _).
+  intros Wx Wy Nx Ny.
+  destruct (cmp_im_is_spec x y Wx Wy) as (-> & _ & ->).
+  destruct (cmp_im_is_spec y x Wy Wx) as (-> & _ & _).
   now apply s_compare_total.
 Qed.
 
-Theorem le_iff_lt_or_eq_partial x y : num_wf x -> num_wf y -> num_defect x y = false ->
+Theorem le_iff_lt_or_eq x y : num_wf x -> num_wf y ->
   num_le x y = num_lt x y || num_eq x y.
 Proof.
-  intros Wx Wy D. destruct (cmp_im_is_spec_partial x y Wx Wy D) as (-> & -> & ->).
+  intros Wx Wy. destruct (cmp_im_is_spec x y Wx Wy) as (-> & -> & ->).
   apply s_le_iff_lt_or_eq.
 Qed.
 
-(* ... and not on it *)
-Theorem compare_total_refuted :
-  exists x y, num_wf x /\ num_wf y /\ num_is_nan x = false /\ num_is_nan y = false /\
-    num_lt x y = false /\ num_eq x y = false /\ num_lt y x = false.
+(* with a NaN operand every comparison is false *)
+Theorem cmp_nan x y : num_wf x -> num_wf y -> num_is_nan x = true \/ num_is_nan y = true ->
+  num_lt x y = false /\ num_le x y = false /\ num_eq x y = false.
 Proof.
-  exists (NInt maxint), (NFlt f2p63). repeat split; try (vm_compute; reflexivity).
-  cbn. unfold in64, maxint. lia.
-Qed.
-
-Theorem le_iff_lt_or_eq_refuted :
-  exists x y, num_wf x /\ num_wf y /\ num_le x y = true /\ num_lt x y = false /\ num_eq x y = false.
-Proof.
-  exists (NInt maxint), (NFlt f2p63). repeat split; try (vm_compute; reflexivity).
-  cbn. unfold in64, maxint. lia.
+  intros Wx Wy N. destruct (cmp_im_is_spec x y Wx Wy) as (-> & -> & ->).
+  apply s_cmp_none_iff_nan in N. unfold s_lt, s_le, s_eq. rewrite N. auto.
 Qed.
